@@ -194,7 +194,7 @@ impl Prop for C10 {
         }
     }
     fn required_probes(&self, _tier: Tier) -> Vec<&'static str> {
-        vec!["enospc_on_final_flush", "enospc_midrun", "crash_between_renames", "crash_inside_write", "limit_zero", "stale_same_name_final_present", "start_above_tip", "input_fault_on_full_device", "input_fault_met_before_any_write_failure", "input_fault_in_single_file_directory", "catchable_signal_delivered", "signal_mid_range", "truncation_inside_a_block_over_128k"]
+        vec!["enospc_on_final_flush", "enospc_midrun", "crash_between_renames", "crash_inside_write", "limit_zero", "stale_same_name_final_present", "start_above_tip", "input_fault_on_full_device", "input_fault_met_before_any_write_failure", "input_fault_in_single_file_directory", "catchable_signal_delivered", "signal_mid_range", "truncation_inside_a_block_over_128k", "record_without_block_data_in_range"]
     }
     fn explore(&self, item: u64, _rng: &mut Rng, _tier: Tier, h: &mut Harness) -> Result<(), String> {
         // every slice regenerates the same world and baseline, then runs its share of the enumeration
@@ -340,6 +340,15 @@ impl Prop for C10 {
                     h.stats.probe("truncation_inside_a_block_over_128k");
                     h.check(&mut c)?;
                 }
+            }
+        }
+        // (1e) the record of a height inside the range carries no block data (a pruned block): there is nothing
+        // to read for it — the run cannot succeed, and must not end quietly under a shorter range either
+        for hh in [s, (s + e + 1) / 2, e] {
+            if mine() {
+                let mut c = mk("record-without-data", &|_r| {});
+                c.index.pruned_at = vec![hh];
+                h.check(&mut c)?;
             }
         }
         // (1c) a range that starts above the tip: nothing to process is not a failure, and the exit status
@@ -653,7 +662,7 @@ impl Prop for C10 {
             "benign" => o.exit.ok(),
             "crash" => o.trace.iter().any(|e| e.op == "crash"),
             "signal" => o.trace.iter().any(|e| e.op == "signal"),
-            "input-fault" | "input-fault+limit" => !o.exit.ok(),
+            "input-fault" | "input-fault+limit" | "record-without-data" => !o.exit.ok(),
             "empty-range" => true,
             _ => o.trace.iter().any(|e| matches!(e.result(), Some((false, n)) if n != 4)),
         }
@@ -817,6 +826,15 @@ impl Prop for C10 {
                 }
                 if o.exit.ok() {
                     v.extend(self.judge_success(cb, m, r, o, st));
+                }
+            }
+            "record-without-data" => {
+                st.probe("record_without_block_data_in_range");
+                if o.exit.ok() {
+                    v.push(viol(format!("C10/{}/exit0-after-input-fault", cb), format!("the record of height {:?} has no block data, but the run exited 0", scn.index.pruned_at)));
+                }
+                if let Some(n) = final_changed.first() {
+                    v.push(viol(format!("C10/{}/final-file-after-failure", cb), format!("the record of height {:?} has no block data: final-named file {} was written", scn.index.pruned_at, n)));
                 }
             }
             "empty-range" => {
